@@ -16,8 +16,24 @@ def main(chk: core.Check, replay):
     recs = res.records
     res.records = []
     chk.add_tlc(res)
+    # larger models (3 intermediates: several exported quantities per half) by simulation
+    consts3 = dict(CONSTS, NInter=3, FreeSchedule=False, EmitMod=3)
+    res3 = tlc.run_tlc("MC_Struct", tlc.make_cfg(constants=consts3, invariants=["C13_MissingExact", "EmitSplit"]), workers=chk.nproc,
+                       timeout=900, simulate={"num": 10 if quick else 120, "depth": 8, "seed": chk.seed + 5},
+                       constants_for_summary=consts3)
+    chk.add_tlc(res3)
+    seen = {modelcase.render_text(r["blocks"]) for r in recs}
+    for r in res3.records:
+        t = modelcase.render_text(r["blocks"])
+        if t not in seen:
+            seen.add(t)
+            recs.append(r)
+    res3.records = []
     if not recs:
         raise core.MachineryFailure("no split model emitted")
+    import random
+    random.Random(chk.seed).shuffle(recs)
+    recs = recs[: (260 if quick else 3000)]
     for backend, n in (("numpy", len(recs)), ("jax", 60 if quick else 400), ("c", 40 if quick else 300)):
         stats, bad = splitcase.replay(recs[:n], backend, chk.nproc)
         chk.replayed += stats["halves"]
